@@ -45,5 +45,37 @@ m f8 examples/simple.rs 's/fn parse_float</fn parse_float2</'
 m f9 fuzz/fuzz_targets/parse.rs 's/return (float, &bytes\[8..\]);/return (float, \&bytes[7..]);/'
 m f10 etc/correctness/test-parse-golang/main.rs "s/Some(&b'e') | Some(&b'E') => {/Some(\&b'e') => {/"
 m f11 src/lib.rs 's/pub use self::parse::parse_float;/pub use self::parse::parse_float as pf;/'
+# ---- gen/SrcStackVec.v (compared with out/SrcStackVec.v: run `run.sh out` first)
+sv() {  # name  file  python-edit  expectation(changed|omitted)
+  local n="$1" f="$2" e="$3" want="$4" d="$W/$1"
+  mkdir -p "$d/repo/examples" "$d/repo/fuzz/fuzz_targets" "$d/repo/tests" "$d/repo/etc/correctness/test-parse-golang" "$d/out"
+  cp -r /repo/src "$d/repo/src"; cp /repo/examples/simple.rs "$d/repo/examples/"; cp /repo/fuzz/fuzz_targets/parse.rs "$d/repo/fuzz/fuzz_targets/"
+  cp /repo/tests/integration_tests.rs "$d/repo/tests/"; cp /repo/etc/correctness/test-parse-golang/main.rs "$d/repo/etc/correctness/test-parse-golang/"
+  python3 - "$d/repo/$f" "$e" <<'PY' || { echo "[$n] EDIT FAILED"; fails=$((fails+1)); return; }
+import sys
+p, edit = sys.argv[1], sys.argv[2]
+s = open(p).read(); before = s
+ns = {"s": s}; exec(edit, ns); s = ns["s"]
+assert s != before, "edit did not apply"
+open(p, "w").write(s)
+PY
+  timeout 120 "$BIN" "$d/repo/src" "$d/out" > "$d/log" 2>&1; rc=$?
+  local om="$(grep '^rs2coq: omitted:' "$d/log" | sed 's/^rs2coq: omitted: //' | cut -c1-90)"
+  local got=same
+  cmp -s "$d/out/SrcStackVec.v" "$HERE/out/SrcStackVec.v" || got=changed
+  if [ "$om" != none ] && [ -n "$om" ]; then got=omitted; fi
+  if [ $rc -eq 0 ] && [ "$got" = "$want" ]; then echo "[$n] SrcStackVec.v $got ($om)"; else echo "[$n] FAILED (exit $rc, $got, wanted $want; omitted: $om)"; fails=$((fails+1)); fi
+}
+sv s1 src/stackvec.rs 's = s.replace("        if self.len() < self.capacity() {", "        if self.len() <= self.capacity() {", 1)' changed
+sv s2 src/stackvec.rs 's = s.replace("ptr::write(self.as_mut_ptr().add(self.len()), value);", "ptr::write(self.as_mut_ptr().add(self.len() + 1), value);", 1)' changed
+sv s3 src/stackvec.rs 's = s.replace("            ptr::copy_nonoverlapping(src, dst, slc.len());\n            self.set_len(new_len);", "            self.set_len(new_len);\n            ptr::copy_nonoverlapping(src, dst, slc.len());", 1)' changed
+sv s4 src/stackvec.rs 's = s.replace("        self.length -= 1;", "        self.length -= 2;", 1)' changed
+sv s5 src/bigint.rs 's = s.replace("ptr::write_bytes(x.as_mut_ptr(), 0, n);", "ptr::write_bytes(x.as_mut_ptr(), 1, n);", 1)' omitted
+sv s6 src/stackvec.rs 's = s.replace("ptr::copy_nonoverlapping(src, dst, slc.len());", "ptr::copy_nonoverlapping(src, dst, slc.len() - 1);", 1)' omitted
+sv s7 src/stackvec.rs 's = s.replace("    length: u16,", "    length: u32,", 1)' omitted
+sv s8 src/stackvec.rs 's = s.replace("        debug_assert!(len <= 0xffff);", "        debug_assert!(len <= 0xfffe);", 1)' changed
+sv s9 src/stackvec.rs 's = s.replace("            for index in 0..count {", "            for index in 1..count {", 1)' changed
+sv s10 src/stackvec.rs 's = s.replace("            let ptr = self.data.as_ptr() as *const bigint::Limb;\n            slice::from_raw_parts(ptr, self.len())", "            let ptr = self.data.as_ptr() as *const bigint::Limb;\n            slice::from_raw_parts(ptr.add(1), self.len())", 1)' omitted
+sv s11 src/bigint.rs 's = s.replace("            let dst = x.as_mut_ptr().add(n);", "            let dst = x.as_mut_ptr().add(n - 1);", 1)' changed
 if [ $fails -eq 0 ]; then echo "mutation_check: PASS"; else echo "mutation_check: $fails FAILURE(S)"; fi
 exit $fails
